@@ -379,7 +379,43 @@ let polyp_case_line (line : string) =
       ignore pn; snapshot ()) ops;
   Buffer.contents mb ^ " # " ^ Buffer.contents sb
 
-let dispatch : (string * (string list -> string)) list ref = ref [ ("ops", ops_case); ("ntt", ntt_case); ("expr", expr_case); ("crt", crt_case); ("set", set_case); ("serial", serial_case) ]
+(* ------------------------------------------------------------------ C19: randombytes under a scripted OS *)
+let rb_case toks =
+  let rec split acc = function "|" :: r -> (List.rev acc, r) | x :: r -> split (x :: acc) r | [] -> (List.rev acc, []) in
+  let (evs, lens) = split [] toks in
+  let seqn = ref 0 in
+  let nextbyte () = let b = (!seqn * 7 + 3) land 255 in incr seqn; nat_of_int b in
+  let ev_of s =
+    if s = "OF" then M.OpenFail else if s = "OK" then M.OpenOk else if s = "RE" then M.ReadErr else if s = "RZ" then M.ReadZero
+    else let c = int_of_string (String.sub s 2 (String.length s - 2)) in M.ReadData (List.init c (fun _ -> nextbyte ())) in
+  (* bytes are numbered in delivery order, which is script order for the ReadData events *)
+  let evl = List.map ev_of evs in
+  let st0 = { M.fd_open = false; M.opens_ok = M.O; M.sleeps = M.O; M.asked = [] } in
+  let b = Buffer.create 256 in
+  let rec go evl st lens =
+    match lens with
+    | [] -> Some (st, evl)
+    | l :: ls ->
+        (match M.randombytes evl st (nat_of_int (int_of_string l)) with
+         | None -> Buffer.add_string b "blocked "; None
+         | Some ((st1, out), rest) ->
+             let bytes = List.map int_of_nat out in
+             if List.length bytes <= 64 then List.iter (fun x -> Buffer.add_string b (Printf.sprintf "%02x" x)) bytes
+             else begin
+               let h = ref (Z.of_string "1469598103934665603") and m64 = Z.pred (Z.shift_left Z.one 64) in
+               List.iter (fun x -> h := Z.logand (Z.mul (Z.logxor !h (Z.of_int x)) (Z.of_string "1099511628211")) m64) bytes;
+               Buffer.add_string b ("h" ^ Z.to_string !h)
+             end;
+             Buffer.add_string b " ";
+             go rest st1 ls) in
+  (match go evl st0 lens with
+   | Some (st, rest) ->
+       Buffer.add_string b (Printf.sprintf "| opens=%d sleeps=%d consumed=%d asked=%s" (int_of_nat st.M.opens_ok) (int_of_nat st.M.sleeps)
+                              (List.length evl - List.length rest) (String.concat "" (List.map (fun a -> string_of_int (int_of_nat a) ^ ",") (List.rev st.M.asked))))
+   | None -> ());
+  let s = Buffer.contents b in s ^ " # " ^ s
+
+let dispatch : (string * (string list -> string)) list ref = ref [ ("ops", ops_case); ("ntt", ntt_case); ("expr", expr_case); ("crt", crt_case); ("set", set_case); ("serial", serial_case); ("rb", rb_case) ]
 
 let () =
   let family = if Array.length Sys.argv > 1 then Sys.argv.(1) else "ops" in
